@@ -416,3 +416,25 @@ int fn_print(const char*) {
     for (int i = 0; i < count; i++) printf("%s%s\n", i == env->curr_op_seq ? " -> " : "    ", script_lines[i]);
     return 0;
 }
+
+#ifdef BTCDEB_VERIF
+// verification hook: one JSON line with the observable session state (observation + stream sync)
+int fn_vdump(const char* arg) {
+    auto hexvec = [](const std::vector<valtype>& v) {
+        std::string s = "[";
+        for (size_t i = 0; i < v.size(); ++i) { if (i) s += ","; s += "\"" + HexStr(v[i]) + "\""; }
+        return s + "]";
+    };
+    size_t ff = env->vfExec.size();
+    for (size_t i = 0; i < env->vfExec.size(); ++i) if (!env->vfExec.at(i)) { ff = i; break; }
+    int opc = 0;
+    memcpy(&opc, &env->opcode, sizeof(opc) < sizeof(env->opcode) ? sizeof(opc) : sizeof(env->opcode));
+    printf("VDUMP {\"nonce\":\"%s\",\"seq\":%d,\"count\":%d,\"done\":%d,\"flags\":%u,\"sigversion\":%d,\"opcode\":%d,\"push\":\"%s\","
+           "\"pc\":%ld,\"nop\":%d,\"vfsize\":%zu,\"vfff\":%zu,\"tce\":%d,\"allow_disabled\":%d,\"script\":\"%s\",\"stack\":%s,\"alt\":%s}\n",
+           arg ? arg : "", env->curr_op_seq, count, env->done ? 1 : 0, env->flags, (int)env->sigversion, opc, HexStr(env->vchPushValue).c_str(),
+           (long)(env->pc - env->script.begin()), env->nOpCount, env->vfExec.size(), ff, env->tce ? env->tce->m_i : -1, env->allow_disabled_opcodes ? 1 : 0,
+           HexStr(env->script).c_str(), hexvec(env->stack).c_str(), hexvec(env->altstack).c_str());
+    fflush(stdout);
+    return 0;
+}
+#endif
